@@ -684,9 +684,11 @@ class Func:
 
 
 class Program:
-    def __init__(self, tus, fp_seeds=None):
-        """tus: dict rel -> cfacts.TU.  fp_seeds: {(function, param index): set(target names)}"""
+    def __init__(self, tus, fp_seeds=None, gtables=None):
+        """tus: dict rel -> cfacts.TU.  fp_seeds: {(function, param index): set(target names)}.
+        gtables: {global variable name: set(function names)} -- constant tables of function pointers"""
         self.tus = tus
+        self.global_fp = {k: set(v) for k, v in (gtables or {}).items()}
         self.funcs = {}
         for rel, tu in tus.items():
             for name, d in tu.funcs.items():
@@ -714,11 +716,20 @@ class Program:
         e = strip(e)
         if e.get("kind") == "UnaryOperator" and e.get("opcode") in ("&", "*"):
             e = strip(kids(e)[0])
+        while e.get("kind") in ("ArraySubscriptExpr", "MemberExpr"):
+            ks = kids(e)
+            if not ks:
+                break
+            # element of a table of function pointers: any entry of the table
+            e = strip(ks[0] if e["kind"] == "MemberExpr" or ptrish(qt(ks[0])) else ks[1])
         if e.get("kind") == "DeclRefExpr":
             rd = e["referencedDecl"]
             if rd.get("kind") == "FunctionDecl":
                 return {rd["name"]}
-            return set(self.fp.get((func.name, rd["id"]), ()))
+            out = set(self.fp.get((func.name, rd["id"]), ()))
+            if rd["id"] not in func.vars:
+                out |= self.global_fp.get(rd.get("name"), set())
+            return out
         if e.get("kind") == "ConditionalOperator":
             c = kids(e)
             return self.fp_of_expr(func, c[1]) | self.fp_of_expr(func, c[2])
@@ -2467,10 +2478,19 @@ def read_py_callbacks(tree, py_rels):
     for rel in py_rels:
         if not tree.exists(rel):
             raise AnalysisError("anchored Python file %s vanished" % rel)
+        text = tree.read(rel)
+        # cheap textual pre-filter: a callback can only be passed where a library function is named
+        pat = re.compile(r"getattr\(\s*\w*lib\w*|\b\w*lib\w*\.[A-Za-z_]\w*\s*[,)]")
+        if not pat.search(text):
+            continue
+        lines = text.splitlines()
         mod = tree.py(rel)
         menv = _bindings(mod.body)
         for fn in ast.walk(mod):
             if not isinstance(fn, (ast.FunctionDef, ast.AsyncFunctionDef)):
+                continue
+            seg = "\n".join(lines[fn.lineno - 1:getattr(fn, "end_lineno", len(lines))])
+            if not pat.search(seg):
                 continue
             env = dict(menv)
             for k, v in _bindings(ast.walk(fn)).items():
@@ -2937,3 +2957,71 @@ def fill_extents(prog, rels):
                                 "row counts not comparable" if undecided else "same rows per call (%s), no overlapping fill" % show(known0[0]["disp"])),
                             "pname": pname})
     return out
+
+
+# ----------------------------------------------------------------------------
+# declarations cfacts does not keep: functions defined in included repository headers, constant tables
+# ----------------------------------------------------------------------------
+def load_extra_decls(tree, rel):
+    """Second look at translation unit `rel` (own clang run, own digest-keyed cache), used only when the
+    first analysis meets a callee that no parsed .c file defines or a call through a table of function
+    pointers:  -> ({header rel: cfacts.TU-like with the functions DEFINED in that repository header},
+                   {global variable name: [function names in its initialiser]})"""
+    import json
+    import os
+    full_rel = cfacts.LIB + "/" + rel
+    text = tree.read(full_rel)
+    dg = cfacts._digest(tree, rel, text)
+    os.makedirs(cfacts.CACHE, exist_ok=True)
+    cp = os.path.join(cfacts.CACHE, "%s.extra1.%s.json" % (rel.replace("/", "_"), dg))
+    mutated = full_rel in tree.overlay
+    if os.path.exists(cp) and not mutated:
+        with open(cp) as f:
+            data = json.load(f)
+    else:
+        raw = json.loads(cfacts._run_clang(tree, rel, text, ["-Xclang", "-ast-dump=json"]))
+        libroot = os.path.realpath(tree.path(cfacts.LIB))
+        hfuncs = {}
+        gtables = {}
+        cur_file = None
+        for d in raw.get("inner", []):
+            loc = d.get("loc") or {}
+            if "expansionLoc" in loc:
+                loc = loc["expansionLoc"]
+            if "file" in loc:
+                cur_file = loc["file"]
+            kind = d.get("kind")
+            in_main = cur_file is None or os.path.basename(cur_file) == os.path.basename(rel)
+            if kind == "FunctionDecl" and not in_main and cur_file and any(
+                    isinstance(c, dict) and c.get("kind") == "CompoundStmt" for c in d.get("inner", [])):
+                rp = os.path.realpath(cur_file)
+                if rp.startswith(libroot + os.sep):
+                    cfacts._prune(d)
+                    hfuncs.setdefault(os.path.relpath(rp, libroot), []).append(d)
+            elif kind == "VarDecl" and (in_main or (cur_file and os.path.realpath(cur_file).startswith(libroot + os.sep))):
+                names = []
+                todo = [d]
+                while todo:
+                    x = todo.pop()
+                    if x.get("kind") == "DeclRefExpr" and (x.get("referencedDecl") or {}).get("kind") == "FunctionDecl":
+                        names.append(x["referencedDecl"]["name"])
+                    todo.extend(c for c in (x.get("inner") or []) if isinstance(c, dict))
+                if names:
+                    gtables[d.get("name")] = sorted(set(names))
+        data = {"hfuncs": hfuncs, "gtables": gtables}
+        if not mutated:
+            tmp = cp + ".tmp%d" % os.getpid()
+            with open(tmp, "w") as f:
+                json.dump(data, f)
+            os.replace(tmp, cp)
+    htus = {}
+    for hrel, funcs in data["hfuncs"].items():
+        tu = cfacts.TU.__new__(cfacts.TU)
+        tu.rel = hrel
+        tu.full_rel = cfacts.LIB + "/" + hrel
+        tu.text = tree.read(tu.full_rel)
+        tu.funcs = {f["name"]: f for f in funcs}
+        tu.decls = []
+        tu.macros = {}
+        htus[hrel] = tu
+    return htus, data["gtables"]
